@@ -41,6 +41,19 @@ def scratch_copy(repo):
 
 def apply_variant(v, root):
     """Returns None if applied, or a reason string if the variant does not apply to this tree."""
+    if v.get("generator") == "combo":
+        for step in v["steps"]:
+            why = apply_variant({"generator": step, "params": True}, root)
+            if why:
+                return why
+        return None
+    if str(v.get("generator", "")).startswith("mutate:"):
+        from . import mutate
+        try:
+            mutate.rewrite_tree(root, v["generator"].split(":", 1)[1])
+        except (SyntaxError, KeyError) as e:
+            return f"rewrite failed: {e}"
+        return None
     if v.get("generator") == "alpha_rename":
         from . import alpha
         try:
